@@ -312,6 +312,15 @@ func (x *Exec) Seam(label string) {
 	x.gateAny(&Op{Kind: "seam", Label: label})
 }
 
+// Woke is what rewritten select statements call at the start of the clause that was chosen.
+func Woke(site string) {
+	x := cur.Load()
+	if x == nil {
+		return
+	}
+	x.gateAny(&Op{Kind: "seam", Label: "woke(" + site + ")"})
+}
+
 // Seam is the package-level form, usable when running free.
 func Seam(label string) { Current().Seam(label) }
 
